@@ -9,6 +9,7 @@
 package c12
 
 import (
+	"bytes"
 	"encoding/json"
 	"fmt"
 	"os"
@@ -51,6 +52,25 @@ type impl struct {
 	name string
 	fs   filesys.Filesys
 	fds  map[int]filesys.File // logical descriptor -> implementation value
+	// held: the last few slices ReadAt returned, extended to their full capacity and scribbled
+	// over, with a snapshot: the file system must never write into memory it handed out
+	held []heldSlice
+}
+
+type heldSlice struct {
+	call       string
+	mem, snapv []byte
+}
+
+// heldChanged reports a returned slice (or the spare capacity behind it) that the file system
+// has written to since it was handed out.
+func (im *impl) heldChanged() string {
+	for _, h := range im.held {
+		if !bytes.Equal(h.mem, h.snapv) {
+			return fmt.Sprintf("the slice returned by %s (extended to its capacity of %d bytes and overwritten by the caller) was later modified by the file system at byte %d", h.call, len(h.mem), firstDiff(h.snapv, h.mem))
+		}
+	}
+	return ""
 }
 
 func scribble(b []byte) {
@@ -87,7 +107,16 @@ func (im *impl) do(op models.FsOp) (res models.FsRes, newFd filesys.File, pmsg s
 	case models.FsReadAt:
 		got := im.fs.ReadAt(im.fds[op.Fd], op.Off, op.Len)
 		res.Data = append([]byte{}, got...)
-		scribble(got) // the returned slice must not be aliased with the file
+		// the returned slice must not be aliased with the file: neither its bytes nor the spare
+		// capacity behind it (a caller's append(got, …) writes there; seeded change C12-4)
+		full := got[:cap(got)]
+		scribble(full)
+		if len(full) > 0 {
+			im.held = append(im.held, heldSlice{call: op.String(), mem: full, snapv: append([]byte{}, full...)})
+			if len(im.held) > 6 {
+				im.held = im.held[1:]
+			}
+		}
 	case models.FsDelete:
 		im.fs.Delete(op.Dir, op.Name)
 	case models.FsLink:
@@ -181,6 +210,9 @@ func runCase(c Case) (msg string, invalid bool) {
 			if pmsg != "" {
 				return fmt.Sprintf("%s panicked on call %d %s: %s\n(model result: %s)\nhistory:\n%s",
 					im.name, i, op, pmsg, showRes(op.Kind, want), history()), false
+			}
+			if m := im.heldChanged(); m != "" {
+				return fmt.Sprintf("%s: after call %d %s %s\nhistory:\n%s", im.name, i, op, m, history()), false
 			}
 			if !models.FsResEqual(op.Kind, want, got) {
 				extra := ""
@@ -417,6 +449,7 @@ func classify(c Case) class {
 
 var dirPool = []string{"d", "e", "x.tmp", "ü", "dir-2"}
 var namePool = []string{"a", "b", "c", "x", "a.b", "a-b", "ü", "x.tmp", "a.tmp"}
+
 // bigSizes straddles the page size and the 64 KiB / 128 KiB marks at which an implementation that
 // reads or writes in chunks would switch to a second chunk (seeded change C12-2).
 var bigSizes = []int{0, 1, 4095, 4096, 4097, 8192, 8193, 12288, 20000, 65535, 65536, 65537, 70000, 131072, 131073, 200001}
